@@ -394,7 +394,9 @@ impl Stage {
                 // model position
                 let pos: usize = match kind {
                     1 | 2 => {
-                        if self.unreaped_possible {
+                        // (only the transcript oracle needs this restriction; without it the
+                        // decision must not depend on what the terminal did)
+                        if self.unreaped_possible && self.rules.transcript {
                             res.skipped = true;
                             self.skipped_ops += 1;
                             r.probe("skipped_index_insert_unreaped");
